@@ -144,6 +144,32 @@ def solve(formulas, timeout_ms, want_model=False, tag=''):
     return verdict, model
 
 
+def _components(formulas):
+    """Partition formulas into groups connected through shared variables."""
+    parent = {}
+
+    def find(x):
+        while parent.get(x, x) != x:
+            parent[x] = parent.get(parent[x], parent[x])
+            x = parent[x]
+        return x
+    fvs = []
+    for f in formulas:
+        vs = list(f.vars())
+        fvs.append(vs)
+        for v in vs:
+            parent.setdefault(v, v)
+        for v in vs[1:]:
+            a, b = find(vs[0]), find(v)
+            if a != b:
+                parent[a] = b
+    groups = {}
+    for f, vs in zip(formulas, fvs):
+        key = find(vs[0]) if vs else None
+        groups.setdefault(key, []).append(f)
+    return list(groups.values())
+
+
 # --------------------------------------------------------------------------
 # symbolic context
 # --------------------------------------------------------------------------
@@ -175,6 +201,7 @@ class Context:
         self.monitors = []
         self.assumptions = []        # human-readable
         self.rng_audit = []
+        self.var_sign = {}           # var id -> '+', '0+' (>= 0) or 'pm1'
         self.raw_on = bool(self.opts.get('raw'))
         self.raw_nodes = []
         self.raw_claims = 0
@@ -338,8 +365,10 @@ class Context:
         v, m = solve(cone + [extra], timeout_ms or self.t_claim, True)
         if v != 'sat':
             return v, None
-        if rest:
-            v2, m2 = solve(rest, timeout_ms or self.t_claim, True)
+        for comp in _components(rest):
+            v2, m2 = solve(comp, timeout_ms or self.t_claim, True)
+            if v2 == 'unsat':
+                return 'unsat', None
             if v2 == 'sat':
                 for k, x in m2.items():
                     m.setdefault(k, x)
@@ -418,10 +447,21 @@ class Context:
         return 'sat', int(m.get(vname(tv), 0))
 
     # ---- assumptions / claims ---------------------------------------
+    def _note_sign(self, f):
+        # single-variable sign facts: -v < 0  (v > 0),  -v <= 0  (v >= 0)
+        if isinstance(f, Cmp) and len(f.p.t) == 1:
+            (m, c), = f.p.t.items()
+            if len(m) == 1 and m[0][1] == 1 and c < 0:
+                if f.op == '<':
+                    self.var_sign[m[0][0]] = '+'
+                elif f.op == '<=' and self.var_sign.get(m[0][0]) != '+':
+                    self.var_sign[m[0][0]] = '0+'
+
     def assume(self, cond, text=None):
         f = _lift(cond)
         if f is FALSE:
             raise PathAbort('assumption false')
+        self._note_sign(f)
         self._assert(f)
         if text:
             self.assumptions.append(text)
@@ -554,6 +594,8 @@ class Context:
             fs.append(Cmp.make(t.n, '>='))
         self.defs[tv] = fs
         self.rewrites[tv] = (k, x)
+        if k % 2 == 0:
+            self.var_sign[tv] = '0+'
         self.atom_cache[key] = t
         return t
 
@@ -565,8 +607,12 @@ class Context:
         r = self.atom_cache.get(('abs', (-x).key()))
         if r is not None:
             return r
-        # path-insensitive shortcut: monomial sign known syntactically is not
-        # attempted; ask nothing, build the atom.
+        # syntactic shortcut: a single monomial whose variables all have a known
+        # sign (assumed positive inputs, sign atoms, abs / root atoms, scales)
+        sc = self._abs_monomial(x)
+        if sc is not None:
+            self.atom_cache[key] = sc
+            return sc
         a = self.fresh_real('abs')
         (av,) = a.n.vars()
         den = x.den_poly()
@@ -575,11 +621,54 @@ class Context:
         self.defs[av] = [Cmp.make(a.n, '>='),
                          Or.make([Cmp.make(p1, '=='), Cmp.make(p2, '==')])]
         self.rewrites[av] = (2, x * x)
+        self.var_sign[av] = '0+'
         self.atom_cache[key] = a
         return a
 
+    def _abs_monomial(self, x):
+        def mono_abs(p):
+            if len(p.t) != 1:
+                return None
+            (m, c), = p.t.items()
+            out = []
+            for v, e in m:
+                sg = self.var_sign.get(v)
+                if sg in ('+', '0+'):
+                    out.append((v, e))
+                elif sg == 'pm1':
+                    if e % 2:
+                        pass            # |s|^odd = 1
+                elif e % 2 == 0:
+                    out.append((v, e))
+                else:
+                    return None
+            return Poly({tuple(out): abs(c)})
+        n = mono_abs(x.n)
+        if n is None:
+            return None
+        d = None
+        if x.d:
+            d = {}
+            for f, m in x.d.items():
+                if m % 2 == 0:
+                    d[f] = m
+                    continue
+                fa = mono_abs(f)
+                if fa is None or fa != f:
+                    return None
+                d[f] = m
+        return Sym(n, d)
+
     def max_(self, xs, hint='max'):
-        xs = [Sym.lift(x) for x in xs]
+        seen = set()
+        ys = []
+        for x in xs:
+            x = Sym.lift(x)
+            k = x.key()
+            if k not in seen:
+                seen.add(k)
+                ys.append(x)
+        xs = ys
         if len(xs) == 1:
             return xs[0]
         if all(x.is_const() for x in xs):
@@ -823,6 +912,40 @@ class ConcreteContext:
 
     def register_root(self, x, k, r):
         pass
+
+    def _abs_monomial(self, x):
+        def mono_abs(p):
+            if len(p.t) != 1:
+                return None
+            (m, c), = p.t.items()
+            out = []
+            for v, e in m:
+                sg = self.var_sign.get(v)
+                if sg in ('+', '0+'):
+                    out.append((v, e))
+                elif sg == 'pm1':
+                    if e % 2:
+                        pass            # |s|^odd = 1
+                elif e % 2 == 0:
+                    out.append((v, e))
+                else:
+                    return None
+            return Poly({tuple(out): abs(c)})
+        n = mono_abs(x.n)
+        if n is None:
+            return None
+        d = None
+        if x.d:
+            d = {}
+            for f, m in x.d.items():
+                if m % 2 == 0:
+                    d[f] = m
+                    continue
+                fa = mono_abs(f)
+                if fa is None or fa != f:
+                    return None
+                d[f] = m
+        return Sym(n, d)
 
     def max_(self, xs, hint='max'):
         return max(xs) if hint == 'max' else min(xs)
